@@ -79,5 +79,8 @@ fn emit_fw<W: Write>(w: &mut W, c: &fw::FwCase, p: &mut util::Prng) {
     let body = text.strip_suffix("end\n").unwrap_or(&text);
     let _ = w.write_all(body.as_bytes());
     let _ = w.write_all(det.as_bytes());
+    if let Some(ni) = fw::ni_line(c) {
+        let _ = w.write_all(ni.as_bytes());
+    }
     let _ = w.write_all(b"end\n");
 }
